@@ -201,7 +201,17 @@ def _build_df(case, cov='const'):
     return df, varied
 
 
+_DI_CACHE = {}
+
+
 def _build_di(df, idname):
+    key = (tuple(df.columns), idname)
+    if key not in _DI_CACHE:
+        _DI_CACHE[key] = _build_di_uncached(df, idname)
+    return _DI_CACHE[key]
+
+
+def _build_di_uncached(df, idname):
     from pharmpy.model import ColumnInfo, DataInfo
 
     cols = []
@@ -412,6 +422,22 @@ def _series_is(ser, values, index=None, name=None):
     return True, ''
 
 
+class _Lazy:
+    """Text that is only rendered when a clause fails"""
+
+    def __init__(self, *parts):
+        self.parts = parts
+
+    def __str__(self):
+        out = []
+        for p in self.parts:
+            out.append(p.to_string() if isinstance(p, pd.DataFrame) else str(p))
+        return ''.join(out)
+
+    def __format__(self, spec):
+        return str(self)
+
+
 class _Ctx:
     def __init__(self, case):
         self.case = case
@@ -490,7 +516,7 @@ def _check_case(case):
     recs = ref['recs']
     n = len(recs)
     rows = list(range(n))
-    desc = df0.to_string()
+    desc = _Lazy(df0)
     has_m = any(r['kind'] == 'm' for r in recs)
     msuffix = ' (MDV=1 record without dose)' if (has_m and 'EVID' not in cols) else ''
 
@@ -661,7 +687,7 @@ def _check_case(case):
         if cov == 'last' and len(case['ids']) == 1:
             continue
         dic = _build_di(dfc, idname)
-        descc = dfc.to_string()
+        descc = _Lazy(dfc)
         res, err = _call(ctx, 'list_time_varying_covariates', dfc, dic)
         if err is None:
             exp = ['AGE'] if varied else []
@@ -690,7 +716,7 @@ def _check_case(case):
                     got_map = {int(k): _flist(res.loc[k, other].tolist()) for k in res.index}
                     ok = got_map == exp_map and res.index.name == idname
                     ok = ok and list(res.columns) == other and len(res) == len(firsts)
-                    why = f'got\n{res.to_string()}'
+                    why = _Lazy('got\n', res)
                 except Exception as e:  # noqa: BLE001
                     ok, why = False, f'{type(e).__name__}: {e}\n{res!r}'
             if not ok:
@@ -757,7 +783,7 @@ def _check_added(ctx, fname, df0, di, res, col, coltype, expected, present, desc
 def _check_expanded(ctx, df0, d, recs, flag, idname, desc):
     fname = 'expand_additional_doses'
     tag = f'flag={flag}: '
-    shown = f'result\n{d.to_string()}\ninput\n{desc}'
+    shown = _Lazy('result\n', d, '\ninput\n', desc)
     if flag:
         expcols = list(df0.columns) + ['EXPANDED']
     else:
@@ -868,7 +894,7 @@ def _check_tad(ctx, df0, di, res, ref, desc):
         ctx.fail(fname, 'returns a model', repr(res))
         return
     d = res.dataset
-    shown = f'result\n{d.to_string()}\ninput\n{desc}'
+    shown = _Lazy('result\n', d, '\ninput\n', desc)
     if list(d.columns) != list(df0.columns) + ['TAD']:
         ctx.fail(fname, 'exactly one column TAD is appended',
                  f'columns {list(d.columns)} expected {list(df0.columns) + ["TAD"]}')
